@@ -51,7 +51,14 @@ class C07(Prop, ScriptGen):
                    'driver is Model.ScriptEval.Captured']
     rule = ('random byte strings 0..10001 as scriptSig/scriptPubKey (uniform + opcode-alphabet), every truncation point '
             'of all-push-kind programs, mutants of signature/multisig programs, P2SH shapes with garbage redeem scripts; '
-            'x 16 flag sets x indices {0,last,|vin|,|vin|+7,-1,-|vin|,-|vin|-1,-5} x mutable/immutable tx; non-trivial = some script non-empty')
+            'x 16 flag sets x indices {0,last,|vin|,|vin|+7,-1,-|vin|,-|vin|-1,-5} x mutable/immutable tx; OPERAND matrix: '
+            'signature operands = every truncation point of a valid DER signature+hashtype, DER header surgery (lengths/tags '
+            '+-1), the minimal DER with the same surgery at every truncation point, all strings of length 1..3 (thorough: 4) '
+            'over {30,02,00,01,80,ff,81,03}; public-key operands = every length 0..66 under prefixes 02/03/04/06/07/00/ff with '
+            'valid and invalid coordinates; each reaching CHECKSIG, CHECKSIGVERIFY, CHECKMULTISIG 1-of-1 / 1-of-2 (either '
+            'position) / VERIFY, bare, through P2SH and by EvalScript.  For operand cases where OpenSSL accepts an encoding '
+            'the strict model rejects, only containment is compared (both outcomes none/ValidationError); '
+            'non-trivial = some script non-empty')
 
     def setup(self):
         self.init_lib()
@@ -105,8 +112,18 @@ class C07(Prop, ScriptGen):
         rng.shuffle(parts)
         return b''.join(parts)
 
+    def common_rng(self, tier):
+        """structural randomness: identical in every shard (everything that feeds an index-partitioned enumeration)"""
+        import random
+        return random.Random('%s:%s:%s:common' % (getattr(self, 'seed', 0), self.id, tier))
+
     def generate(self, rng, tier, shard, nshards):
+        # Partition discipline: every enumerated section counts from 0 with its own counter, the number and order of
+        # its entries depend neither on the per-shard `rng` nor on signature bytes (DER lengths vary per process);
+        # random content inside an enumerated entry comes from `crng`, identical in all shards.  `rng` is used only
+        # in the sections that every shard generates independently (no index partition).
         big = tier == 'thorough'
+        crng = self.common_rng(tier)
         i = 0
         H160 = self.C.Hash160
         # (1) truncation of every push at every position (exhaustive over the prefix lengths)
@@ -127,12 +144,14 @@ class C07(Prop, ScriptGen):
         # every truncation point of a signature program
         for sh in range(3):
             sc, st = self.sig_program(__import__('random').Random(sh), 1, 1)
-            for k in range(len(sc) + 1):
-                i += 1
-                if i % nshards != shard:
+            # len(sc) may depend on the DER length of an embedded signature: partition by the position itself, over a
+            # fixed range, and keep it out of the running counter
+            for k in range(400):
+                if k % nshards != shard or k > len(sc):
                     continue
-                yield self.ev(sc[:k], st, rng.choice(ALL_MASKS), 1, 1, tag='trunc-sigprog')
+                yield self.ev(sc[:k], st, (k * 7 + sh) % 16, 1, 1, tag='trunc-sigprog')
         # (2) known-finding shapes and their neighbours: all 16 flag sets x all indices x both tx kinds
+        i = 0
         k0 = self.key(0)[1]
         spk = push(k0) + b'\xac'
         for ti in range(3):
@@ -152,6 +171,7 @@ class C07(Prop, ScriptGen):
                     yield self.vf(push(good[:-1] + b'\x83'), spk, mask, ti, idx, 1, tag='single-acp-grid')
                     yield self.vf(b'\x00' + push(good), b'\x51' + spk[:-1] + b'\x51\xae', mask, ti, idx, 0, tag='cms-grid')
         # limits: state captured after the stack limit has been crossed (D5) and at the op-count limit
+        i = 0
         for n in (999, 1000, 1001, 1004, 1100):
             i += 1
             if i % nshards != shard:
@@ -169,12 +189,13 @@ class C07(Prop, ScriptGen):
             yield self.vf(b'', b'\x61' * n + b'\x00\x00' + keys + pushnum(20) + b'\xae', 0, tag='limit-opcount')
             yield self.vf(b'', b'\x61' * n + b'\x00\x51' + keys + pushnum(20) + b'\xaf', 0, tag='limit-opcount')
         # SEQUENCE cases: histories of calls in one process, all 16 flag sets, known-finding shapes interleaved
+        i = 0
         for rep in range(3 if big else 1):
-            for (tag, steps) in self.seq_histories(rng, ALL_MASKS):
+            for (tag, steps) in self.seq_histories(crng, ALL_MASKS):
+                r = crng.random()          # at most one kind of known finding per history (drawn in every shard)
                 i += 1
                 if i % nshards != shard:
                     continue
-                r = rng.random()          # at most one kind of known finding per history
                 if r < 0.25:
                     steps = steps[:1] + [self.step('v', b'\x51', b'\x51', 4, 0, 0)] + steps[1:]
                 elif r < 0.5:
@@ -184,12 +205,21 @@ class C07(Prop, ScriptGen):
                              if k != (1 if r < 0.25 else len(steps) - 1) else st_ for k, st_ in enumerate(steps)]
                 yield Case(op='c07.seq', args=[x for st_ in steps for x in st_], tag=tag)
         # CHECKMULTISIG matrix (shared with C06): all signature lists for n <= 2 keys (n = 3 in thorough), any flag set
+        i = 0
         for n in ((1, 2, 3) if big else (1, 2)):
             for (sg_, spk_, mask, tag) in self.multisig_matrix(n, n % 3, 0):
                 i += 1
                 if i % nshards != shard:
                     continue
-                yield self.vf(sg_, spk_, mask | rng.choice([0, 8]), n % 3, 0, rng.randrange(2), tag=tag)
+                yield self.vf(sg_, spk_, mask | (0, 8)[i // 3 % 2], n % 3, 0, i // 5 % 2, tag=tag)
+        # OPERAND matrix (shared ScriptGen.operand_matrix): every operand the code indexes into — signatures, public keys
+        # — at every small length and every truncation point, reaching CHECKSIG / CHECKSIGVERIFY / CHECKMULTISIG(VERIFY)
+        # bare, through P2SH and by EvalScript
+        for t in self.operand_matrix(big, shard, nshards):
+            if t[0] == 'v':
+                yield self.vf(t[1], t[2], t[3], self.OPND_TI, self.OPND_IDX, 0, tag=t[4])
+            else:
+                yield self.ev(t[1], t[2], t[3], self.OPND_TI, self.OPND_IDX, 0, tag=t[4])
         # (3) random byte strings
         for _ in range(26000 if big else 800):
             ti = rng.randrange(3)
@@ -305,6 +335,16 @@ class C07(Prop, ScriptGen):
                 return False
             m, r = m1.split(' ~ ')
             contained = i1.startswith('ok') or (i1.startswith('err:validation{') and i1.endswith('}'))
+            if (c.get('tag') or '').startswith('opnd-') and i1 != m:
+                # OPERAND matrix: C07 is about containment, the strict-DER / SEC1 domain restriction belongs to C06's
+                # equivalence.  CECKey.verify re-encodes what d2i_ECDSA_SIG accepted, so OpenSSL tolerates encodings the
+                # strict model rejects (e.g. a trailing byte after the DER body): there the library may ACCEPT where the
+                # model fails with a ValidationError.  Nothing else may differ: both outcomes contained, and never a
+                # rejection by the library of what the model accepts.
+                m_contained = m.startswith('ok') or m.startswith('err:validation{')
+                if contained and m_contained and i1.startswith('ok') and not m.startswith('ok') and r in ('-', m.split('{')[0]):
+                    continue
+                return False
             if not (i1 == m and contained and (r == '-' or r == m.split('{')[0])):
                 return False
         return True
